@@ -45,6 +45,7 @@ var (
 	spellingsOf [][]int   // clean id -> pats ids of its un-clean spellings
 	badPats     []int     // pats ids of patterns not starting with '/' (fixed list)
 	nRelative   int       // all patterns not starting with '/'
+	nUnclean    int       // un-clean spellings of clean patterns
 	patByRaw    = map[string]int{}
 
 	paths     []pathInfo
@@ -167,6 +168,8 @@ func buildUniverse() {
 	for _, p := range pats {
 		if !p.valid {
 			nRelative++
+		} else if p.unclean {
+			nUnclean++
 		}
 	}
 
